@@ -12,7 +12,17 @@ import (
 	"sync"
 	"testing"
 	"time"
+
+	kit "github.com/bluenviron/mediamtx/internal/verifkit"
 )
+
+// c40RegressHere: the regression tests are deterministic scenarios; running them in one process per tier is enough
+// (first shard of the first unit), the other shards only run generated programs.
+func c40RegressHere(t *testing.T) {
+	if s := os.Getenv("VERIF_SHARD"); (s != "" && s != "0") || kit.EnvInt("C40_SALT", 0) != 0 {
+		t.Skip("regression tests run in shard 0 of the first unit only")
+	}
+}
 
 // TestVerifC40RegressAPIRestartDeadlock pins the deadlock found by TestVerifC40Programs (plain Go, no rapid):
 // a configuration edit that makes the Core restart the API server (any global edit that recreates the path manager,
@@ -23,6 +33,7 @@ import (
 // The window is real-time dependent, so the test repeats the pair a number of times; a hang is detected by a bound
 // (40 s) that is far beyond any timer involved (HTTP shutdown timeout 2 s).
 func TestVerifC40RegressAPIRestartDeadlock(t *testing.T) {
+	c40RegressHere(t)
 	if c40Known(c40KnownAPIRestart) {
 		t.Skip("listed as known finding")
 	}
@@ -84,6 +95,7 @@ func TestVerifC40RegressAPIRestartDeadlock(t *testing.T) {
 // reader -> closer, exactly like an RTSP reader and an unrelated publisher in production: the publisher goroutine
 // attaches, announces it, sleeps and detaches; the reader goroutine sends DESCRIBE in between.
 func TestVerifC40RegressStreamCloseRace(t *testing.T) {
+	c40RegressHere(t)
 	if !c40RaceEnabled {
 		t.Skip("needs a -race build")
 	}
@@ -153,6 +165,7 @@ func TestVerifC40RegressMetricsScrapeDuringRestart(t *testing.T) {
 		c40ChildMetricsScrape()
 		return
 	}
+	c40RegressHere(t)
 	if c40Known(c40KnownMetricsNil) {
 		t.Skip("listed as known finding")
 	}
@@ -217,6 +230,7 @@ func c40ChildMetricsScrape() {
 // the recorder's goroutine without pa.confMutex, path.doReloadConf() replaces pa.conf on the path goroutine.
 // Stand-alone pathManager, no network: the reloading goroutine gets no information from the recorder.
 func TestVerifC40RegressRecordHookRace(t *testing.T) {
+	c40RegressHere(t)
 	if !c40RaceEnabled {
 		t.Skip("needs a -race build")
 	}
@@ -292,6 +306,7 @@ func TestVerifC40RegressRecordHookRace(t *testing.T) {
 // OnSessionClose runs onClose a second time). A kicker keeps kicking whatever session exists while a publisher
 // performs ANNOUNCE/SETUP/RECORD 40 times. Not deterministic: passing does not mean the race is gone.
 func TestVerifC40RegressKickRace(t *testing.T) {
+	c40RegressHere(t)
 	if !c40RaceEnabled {
 		t.Skip("needs a -race build")
 	}
